@@ -1,5 +1,7 @@
 CONSTANTS
   Dev = {"D_extra_rrset_ignored"}
+  Mut = {}
+  AdvOn = {"ANS", "DS", "DNSKEY"}
   AnchorForms = {"dnskey"}
   Cfgs = {"default"}
   MaxRuns = 1
